@@ -531,6 +531,15 @@ func devWhy(k *Conc, c *ACase) string {
 			return "labelfilter:after-drop-before-parser"
 		}
 	}
+	for i, st := range q.P {
+		if st.K == "lbl" && firstParser >= 0 && firstParser < i {
+			for j := i + 1; j < len(q.P); j++ {
+				if q.P[j].K == "drop" || q.P[j].K == "dropv" {
+					return "labelfilter:before-drop-in-same-select"
+				}
+			}
+		}
+	}
 	// a matcher that an absent label satisfies
 	for _, m := range q.M {
 		absentOK := (m.Op == "!=" && m.Val != "") || (m.Op == "=" && m.Val == "") || (m.Op == "=~" && m.Val == "R_any") ||
@@ -540,7 +549,7 @@ func devWhy(k *Conc, c *ACase) string {
 		}
 		for _, e := range c.DB {
 			if e.S[m.Name] == "" {
-				return "selector:" + m.Op + ":label-absent-from-stream"
+				return "selector:label-absent-from-stream|" + m.Op
 			}
 		}
 	}
@@ -555,7 +564,7 @@ func devWhy(k *Conc, c *ACase) string {
 				operand, tag = k.Feat[f].S, k.Feat[f].Tag
 			}
 			if strings.HasSuffix(operand, "'") || strings.HasPrefix(operand, "'") || strings.Contains(operand, `\`) {
-				return "linefilter:" + likeKind(st.Op) + ":operand-" + tag
+				return "linefilter:like-escaping|" + tag + "|" + likeKind(st.Op)
 			}
 		}
 	}
